@@ -239,6 +239,10 @@ pub const SPECS: &[&str] = &[
     "type: optional\ninitPresent: true\nvalueType:\n  type: real\n  init: 1.0\n  scale: 1.0\n",
     // resizable maps whose initial size and maximum differ (hash-table capacities of a freshly built and of a parsed value)
     "m:\n  type: anon map\n  initSize: 3\n  maxSize: 6\n  valueType:\n    type: real\n    init: 0.5\n    scale: 1.0\nn:\n  type: anon map\n  initSize: 7\n  maxSize: 14\n  valueType:\n    type: bool\n    init: false\n",
+    // bounds that need all 17 digits, a step scale far above the range (values sit on a bound most of the time),
+    // and magnitudes far below 1e-12: any loss of digits on the way to the objective function shows as a value
+    // outside its bounds
+    "x:\n  type: real\n  init: 0.9876543210987005\n  scale: 10.0\n  min: 0.9876543210987001\n  max: 0.9876543210987654\nrate:\n  type: real\n  init: 0.0000000000005\n  scale: 0.000000000001\n  min: 0.0000000000001\n  max: 0.000000000001\n",
 ];
 
 pub struct Obs {
